@@ -508,6 +508,7 @@ class Interp(Ops, Builtins, DynOps):
                 return
             self.ctx.mutating()
             self.ctx.cell(o)[attr] = v
+            self.ctx.cell_write(o.addr, attr, node)
             return
         if o.kind == "sobj":
             cm = self.class_models[o.cname]
@@ -625,11 +626,13 @@ class Interp(Ops, Builtins, DynOps):
                     items[j] = self.merge(idx == j, v, items[j])
                 return
             items[idx.as_long()] = v
+            self.ctx.cell_write(o.addr, "[]", node)
             return
         if o.kind == "ref" and o.rkind == "dict":
             self.ctx.mutating()
             keys, vals = self.ctx.cell(o)
             self.dict_set_raw(keys, vals, i, v, node)
+            self.ctx.cell_write(o.addr, "[]", node)
             return
         if o.kind == "slist":
             idx = self.norm_index(i, self.ctx.slen(o.z), node)
